@@ -10,18 +10,31 @@ from ..core import Broken, Ctx, Violation
 PROP_FILE = "Properties/C04.v"
 
 TRUSTED = [
-    "translator/c04.py (shape of set_random_seed -> src_srs_cfg; seed-forwarding call chain of every mode -> "
-    "src_links; draw sites inside/outside the bracket of every model function with a `seed` parameter -> "
-    "src_seeded_models; np.random.seed/set_state sites -> src_seed_sites; numba-compiled draws -> src_numba_sites; "
-    "fails closed on other shapes; helper calls are followed by NAME inside pyxel/models, an over-approximation)",
-    "Section variables of Model/Rng.v: the generator is ANY (gen, val, seed_gen : Z -> gen, next : Z -> gen -> gen * val); "
-    "the only assumption is that seeding and drawing are functions of their arguments (MT19937 itself is not modelled)",
+    "translator/c04.py (shape of set_random_seed -> src_srs_cfg; for every running mode the seed-forwarding call chain "
+    "AND the four doors a seed comes through - constructor, YAML builder, attribute setter, override key - as "
+    "(mode, entry, link, XId|XTruthy|XDrop) -> src_links; draw sites inside/outside the bracket, bare reseeding, "
+    "iterations over hash-ordered collections and truthiness tests on `seed` of every model function with a `seed` "
+    "parameter -> src_seeded_models; np.random.seed/set_state sites -> src_seed_sites; truthiness tests on any seed in the "
+    "running modes / run.py / configuration builders / models -> src_seed_truthiness; how each branch of "
+    "ArchipelagoDataTree._build iterates over the created islands -> src_island_build; numba-compiled draws -> "
+    "src_numba_sites; fails closed on other shapes; helper calls are followed by NAME inside pyxel/models, an "
+    "over-approximation; set expressions are recognised syntactically: literals, set()/frozenset(), comprehensions, "
+    "set methods, `a.keys() & b`, names bound to those)",
+    "Section variables of Model/Rng.v: the generator is ANY (gen, val, seed_gen : Z -> gen, next : Z -> gen -> gen * val) "
+    "and the process is ANY (swap : Z -> bool, which hash-ordered sites come out swapped); the only assumption is that "
+    "seeding and drawing are functions of their arguments (MT19937 itself is not modelled)",
     "correspondence harness: harness/props/c04.py session generator, harness/drivers/c04.py (sha1 of "
-    "np.random.get_state() at probe points, renumbered by first occurrence), probes/verif_probes.py rng_probe/fail/write",
+    "np.random.get_state() at probe points, renumbered by first occurrence; child interpreters started with their own "
+    "PYTHONHASHSEED, the generator state carried from one to the next; wrappers installed from outside around "
+    "np.random.seed / np.random.set_state (bracket trace with thread and seed), pygmo.island.__init__ (planned delays, "
+    "finishing order) and ArchipelagoDataTree.__init__/_build (parallel flag, seed of every island)), "
+    "probes/verif_probes.py rng_probe/fail/write",
     "modelled, not verified: np.random.get_state()/set_state() capture and restore the whole legacy generator; distinct "
     "hashed states / draw values are treated as distinct (no collisions); a run's result is a function of its "
-    "configuration and of the values it draws; pygmo's own generator is deterministic for a fixed pygmo_seed "
-    "(checked only by repetition); dask runs under the synchronous scheduler (thread interleavings belong to C07)",
+    "configuration and of the values it draws (results are compared one way only: equalities the model forces must "
+    "hold); pygmo's own generator is deterministic for a fixed pygmo_seed (checked only by repetition); dask runs under "
+    "the synchronous scheduler; the bracket theorems speak about one thread of control - the harness checks in Coq that "
+    "every observed bracket trace is LIFO, thread interleavings themselves belong to C07",
 ]
 
 SEEDS = [0, 1, 2 ** 32 - 1]
@@ -473,12 +486,23 @@ def emit_case(sess, obs, facts) -> str:
         rows.append(
             "{| it_run := %s; it_prog := %s; it_seeded := %s; it_closed := %s; it_cfg := %d; it_proc := %d; "
             "it_aux := %s; ob_pre := %d; ob_inner := %s; ob_post := %d; ob_draws := %s; ob_res := %s; "
-            "ob_raised := %s; ob_aux := %s |}" % (
+            "ob_raised := %s; ob_aux := %s; it_collapse := %s; ob_trace := %s |}" % (
                 core.cbool(o["run"]), item_prog(it, cid, facts), core.cbool(seeded), core.cbool(closed), cid,
                 int(it.get("proc", 0)), m_aux, o["pre"],
                 core.clist(str(x) for x in o["inner"]), o["post"], core.clist(str(x) for x in o["draws"]),
-                core.cz(o["res"]), core.cbool(o["raised"]), o_aux))
+                core.cz(o["res"]), core.cbool(o["raised"]), o_aux, core.cbool(it.get("op") == "calibration"),
+                trace_lit(o.get("trace", []))))
     return "[" + ";\n   ".join(rows) + "]"
+
+
+def trace_lit(tr) -> str:
+    out = []
+    for t, kind, sd in tr:
+        if kind == "enter":
+            out.append(f"BEnter {int(t)} {core.cz(-1 if sd is None else int(sd))}")
+        else:
+            out.append(f"BExit {int(t)}")
+    return core.clist(out)
 
 
 def emit_file(pairs, facts) -> str:
@@ -487,7 +511,8 @@ def emit_file(pairs, facts) -> str:
             "From PyxelGen Require Import Gen_C04.\nImport ListNotations.\nOpen Scope Z_scope.\n"
             f"Definition cases : list (list item) := [\n  {body}\n].\n"
             "Eval vm_compute in mismatches src_srs_cfg cases.\n"
-            "Eval vm_compute in violations cases.\n")
+            "Eval vm_compute in violations cases.\n"
+            "Eval vm_compute in interleaved cases.\n")
 
 
 # ------------------------------------------------------------------------------------------ classification
@@ -568,8 +593,39 @@ def to_violation(sess, obs) -> Violation:
 # ------------------------------------------------------------------------------------------ legs
 
 
+def session_cost(sess) -> float:
+    c = 0.0
+    for it in sess["items"]:
+        op = it["op"]
+        if op == "calibration":
+            c += 3.0 + 1.5 * int(it.get("islands", 1)) + sum(it.get("delay", []))
+        elif op == "call":
+            c += 3.0 if it["model"] in SLOW_MODELS else 0.2
+        elif op in ("exposure", "observation"):
+            c += 0.4
+    return c + 6.0 * len(sess.get("procs", []))
+
+
+def balanced_order(sessions, workers):
+    """Indices of the sessions, dealt over the workers in snake order by decreasing cost, so that run_driver's
+    contiguous chunks have similar total cost."""
+    idx = sorted(range(len(sessions)), key=lambda i: -session_cost(sessions[i]))
+    bins = [[] for _ in range(workers)]
+    for k, i in enumerate(idx):
+        rnd, pos = divmod(k, workers)
+        bins[pos if rnd % 2 == 0 else workers - 1 - pos].append(i)
+    size = max(len(b) for b in bins)
+    # run_driver cuts chunks of ceil(n/workers): move items so that every bin but the last ones has that size
+    flat = [i for b in bins for i in b]
+    return flat
+
+
 def correspondence(ctx: Ctx, sessions, facts, tag="c"):
-    obs = core.run_driver(ctx, "c04", sessions, workers=8, timeout=600)
+    order = balanced_order(sessions, 8)
+    got = core.run_driver(ctx, "c04", [sessions[i] for i in order], workers=8, timeout=600)
+    obs = [None] * len(sessions)
+    for i, o in zip(order, got):
+        obs[i] = o
     pairs = []
     for s, o in zip(sessions, obs):
         if "crash" in o or "driver_error" in o:
@@ -584,11 +640,18 @@ def correspondence(ctx: Ctx, sessions, facts, tag="c"):
     for k, name in enumerate(sorted(files)):
         ok, evals, se = res[name]
         chunk = pairs[k * per:(k + 1) * per]
-        if not ok or len(evals) != 2:
+        if not ok or len(evals) != 3:
             ctx.broken.append(Broken("correspondence", f"case file {name}.v did not evaluate", core.tail(se, 15)))
             continue
         mism += [chunk[i] for i in core.parse_int_list(evals[0]) if not chunk[i][0].get("no_model")]
         viol += [chunk[i] for i in core.parse_int_list(evals[1])]
+        for i in core.parse_int_list(evals[2]):
+            if not chunk[i][0].get("no_model"):
+                ctx.broken.append(Broken(
+                    "assumption", "one thread of control over the process-wide generator",
+                    f"the np.random.seed / set_state calls observed in a {chunk[i][0]['kind']} session are not LIFO: "
+                    "brackets of different threads interleave (hypothesis of C04_one_thread_of_control; C07)",
+                    dict(case=chunk[i][0], observed=chunk[i][1])))
     for s, o in pairs:
         runs = [x for x in o["items"] if x["run"]]
         ctx.count("evaluations", len(runs))
@@ -600,7 +663,7 @@ def correspondence(ctx: Ctx, sessions, facts, tag="c"):
             for h in o.get("hashseeds", []):
                 ctx.dist("hashseed_class", "0" if str(h) == "0" else "small" if int(h) < 1000 else "large")
         for it, oi in zip(s["items"], o["items"]):
-            if it["op"] not in ("seed", "draws"):
+            if it["op"] in ("exposure", "observation", "calibration"):
                 ctx.dist("seed_entry", it.get("via", "ctor"))
             if oi.get("aux"):
                 ax = oi["aux"]
@@ -667,7 +730,7 @@ def run(ctx: Ctx):
     core.proof_leg(ctx, gen, PROP_FILE)
     static_violations(ctx, facts)
 
-    sessions = gen_sessions(ctx, ctx.budget(44, 160))
+    sessions = gen_sessions(ctx, ctx.budget(64, 220))
     mism, viol, pairs = correspondence(ctx, sessions, facts)
     distinct = {json.dumps(s["items"], sort_keys=True) for s, _ in pairs
                 if sum(1 for it in s["items"] if it["op"] not in ("seed", "draws")) >= 2}
@@ -675,6 +738,9 @@ def run(ctx: Ctx):
     ctx.cov["rule"] = ("a session is non-trivial if it repeats a run / model call at least twice from different prior "
                        "generator states (fresh, after np.random.seed(j), after k draws); distinct = distinct item lists")
     ctx.cov["traces_validated_against_impl"] = len(pairs)
+    ctx.cov["bracket_operations_observed"] = sum(len(x.get("trace", [])) for _, o in pairs for x in o["items"])
+    ctx.cov["threads_seen_using_brackets"] = max([1 + max([e[0] for e in x.get("trace", [])] or [-1])
+                                                  for _, o in pairs for x in o["items"]] or [0])
     ctx.cov["disagreements_checked"] = len(mism)
     ctx.cov["models_in_table"] = len(facts.get("models", []))
     ctx.cov["models_driven_directly"] = len(CALL_MODELS) + 1
@@ -699,7 +765,7 @@ def new_violations(ctx: Ctx):
 
 def search(ctx: Ctx, facts):
     ctx.log("searching for a concrete failing input (more sessions, other seeds and prior states)")
-    sessions = gen_sessions(ctx, ctx.budget(90, 240), salt="search")
+    sessions = gen_sessions(ctx, ctx.budget(100, 260), salt="search")
     mism, viol, pairs = correspondence(ctx, sessions, facts, tag="s")
     for s, o in viol:
         ctx.violations.append(to_violation(s, o))
